@@ -56,6 +56,12 @@ class Case:
         self.binding, self.depth = binding, depth
 
 
+class Infeasible:
+    """marker: the branch taken contradicts which operands of a logical expression were evaluated"""
+    kind = 'infeasible'
+    depth = 0
+
+
 class Enter:
     __slots__ = ('fn', 'call', 'depth')
     kind = 'enter'
@@ -125,6 +131,39 @@ class OpPaths:
             yield items, abort
 
     # -- internals -----------------------------------------------------------
+    @staticmethod
+    def _logical_conds(fn, visited, cond, pol):
+        """Split a branch on a whole `a && b` / `a || b` value (evaluated in a join block)
+        into facts about its operands, using which operand blocks this path went through.
+        Returns (list of (cond, pol), feasible)."""
+        from flow import unwrap_casts
+        c = unwrap_casts(cond)
+        if not (isinstance(c, dict) and c.get('k') == 'bin' and c.get('op') in ('&&', '||')):
+            return [(cond, pol)], True
+        r = c.get('r')
+        r_at = r.get('_at') if isinstance(r, dict) else None
+        r_visited = r_at is None or r_at[0] in visited
+        if c['op'] == '&&':
+            if pol == 'T':
+                if not r_visited:
+                    return [], False
+                a, fa = OpPaths._logical_conds(fn, visited, c['l'], 'T')
+                b, fb = OpPaths._logical_conds(fn, visited, r, 'T')
+                return a + b, fa and fb
+            if r_visited:
+                return OpPaths._logical_conds(fn, visited, r, 'F')
+            return OpPaths._logical_conds(fn, visited, c['l'], 'F')
+        else:
+            if pol == 'F':
+                if not r_visited:
+                    return [], False
+                a, fa = OpPaths._logical_conds(fn, visited, c['l'], 'F')
+                b, fb = OpPaths._logical_conds(fn, visited, r, 'F')
+                return a + b, fa and fb
+            if r_visited:
+                return OpPaths._logical_conds(fn, visited, r, 'T')
+            return OpPaths._logical_conds(fn, visited, c['l'], 'T')
+
     def _fn_paths(self, fn, binding, depth, stack):
         if not fn.blocks:
             yield [], False
@@ -178,8 +217,12 @@ class OpPaths:
                         pol = fn.edge_kind(b, nxt)
                         cond = fn.term_cond(b)
                         if pol and cond is not None:
-                            item = Cond(fn, b, blk.term.get('l', 0), cond, pol, binding, depth)
-                            seqs = [(s + [item], ab) if not ab else (s, ab) for s, ab in seqs]
+                            subs, feasible = self._logical_conds(fn, blocks[:pi + 1], cond, pol)
+                            new_items = [Cond(fn, b, blk.term.get('l', 0), c2, p2, binding, depth)
+                                         for c2, p2 in subs]
+                            if not feasible:
+                                new_items.append(Infeasible())
+                            seqs = [(s + new_items, ab) if not ab else (s, ab) for s, ab in seqs]
             for s, ab in seqs:
                 yield s, (ab or abort)
 
@@ -226,6 +269,8 @@ def ec_class(cond_item, ec_names=('ec',)):
     def ec_ref(x):
         y = x
         while isinstance(y, dict) and y.get('k') in ('icast', 'cast', 'move', 'local'):
+            if y.get('k') == 'local' and y.get('tcls') == 'error_code':
+                return y.get('n')
             y = y.get('e')
         if isinstance(y, dict) and y.get('k') in ('paramof', 'ref') and y.get('tcls') == 'error_code':
             return y.get('n')
